@@ -29,6 +29,7 @@ META["text"] += ' (R7, P) formula identities: fixed_alternative_mean == (N eta -
 META["text"] += ' R6 also: the default initial bet is the documented constant. (R8 = factor identity) the ranges speak about eta_j and lambda_j as they enter the published factor, in the finite and the infinite regime alike.'
 META["text"] += " (R9, N) no method keeps state between calls (see C01.R8). R6 also: the super-majority test is constructed with the assorter's own bound (the default eta is fixed from the construction-time u)."
 META["text"] += ' R5 also borrows the dtype lint (C12.R6). R6 also: the constructor keeps its positional protocol.'
+META["text"] += " (R10, N, whole package) who-may-write on the test object's attributes: only the constructor, and `u` at three confirmed sites; a second copy of the margin or of a rate stored from outside is not tied to u by any rule."
 
 REL = nnm.REL
 
@@ -95,6 +96,8 @@ def run(chk):
     idx = chk.idx
     nnm_rules.rule_ctor_signature(chk, "C13.R6")
     nnm_rules.rule_stateless(chk, "C13.R9")  # first: its refutations stand even if a later rule cannot read the code
+    from .. import aud as _aud
+    _aud.test_config_writers(chk, "C13.R10", "the range proofs read u and the tuning attributes as one consistent configuration")
     reg = nnm.registry(idx)
     chk.explain(
         "R1: every estimator's return value r satisfies 0 <= r <= u; R2: shrink_trunc's return is strictly above the "
